@@ -9,7 +9,7 @@
    bytes [out].  [sdec v] is the reference decoder (CobsModel.v).  The theorems hold for
    EVERY byte list, every resume state and every variant record — no well-formedness of
    the input is assumed unless stated. *)
-From MptV Require Import Base.Mem Cobs.CobsModel Cobs.DecModel Cobs.EncProofs Cobs.DecProofs Cobs.DecCall.
+From MptV Require Import Base.Mem Cobs.CobsModel Cobs.DecModel Cobs.EncProofs Cobs.DecProofs Cobs.DecCall Cobs.DecComplete.
 
 (* SAFETY, one call, arbitrary bytes and (well-formed) resume state: the region keeps its
    size; nothing before the state's decoded data is written; if anything was written, the
@@ -80,6 +80,24 @@ Theorem C03_cobs_needs_no_slack :
   forall v, zpe v = false -> forall bl proc, 1 <= proc -> gapok v proc bl.
 Proof. exact gapok_cobs. Qed.
 
+(* WELL-FORMED INPUT, in the reference decoder's own terms: whenever the reference decoder accepts
+   a frame body ([sdec v body = Some m]) the decoder loop, started after the frame's first code
+   byte with a gap of at least |body|+1 bytes, delivers exactly m — directly, or for COBS/R as the
+   reported zero inside the last block that the wrapper completes with the code byte
+   ([delivers]); whatever bytes [tl] follow the delimiter. *)
+Theorem C03_accepted_frame_is_delivered :
+  forall v body m c0 rest tl proc cons,
+    sdec v body = Some m -> body = c0 :: rest -> length body + 1 <= proc ->
+    delivers v (dec_loop v false (rest ++ 0%N :: tl) (bn c0) 0 proc [] cons) m.
+Proof. exact dec_complete_sdec. Qed.
+
+(* for COBS and COBS/R the single byte gained by reading the first code byte is enough *)
+Theorem C03_accepted_frame_is_delivered_cobs :
+  forall v body m c0 rest tl proc cons,
+    zpe v = false -> sdec v body = Some m -> body = c0 :: rest -> 1 <= proc ->
+    delivers v (dec_loop v false (rest ++ 0%N :: tl) (bn c0) 0 proc [] cons) m.
+Proof. exact dec_complete_sdec_cobs. Qed.
+
 (* ---- non-vacuity ---- *)
 Example C03_hon_start : forall v c, 1 <= c -> hon v [nb c] [] c 0.
 Proof. exact hon_start. Qed.
@@ -105,3 +123,5 @@ Print Assumptions C03_inline_tail_is_reference_decoding.
 Print Assumptions C03_wellformed_frame_delivered.
 Print Assumptions C03_delivered_message_is_sdec.
 Print Assumptions C03_cobs_needs_no_slack.
+Print Assumptions C03_accepted_frame_is_delivered.
+Print Assumptions C03_accepted_frame_is_delivered_cobs.
